@@ -389,7 +389,15 @@ func isSliceOf(x ast.Expr) bool { _, ok := x.(*ast.SliceExpr); return ok }
 // is complete: no error return is reachable (CFG) after the store. Otherwise a failed resolution
 // leaves a partial import table behind and a retry with a working resolver silently uses it.
 func (e *Env) RCacheAfterSuccess() {
-	pkg := e.Prog.Pkg(load.PkgGoast)
+	n := 0
+	for _, path := range []string{load.PkgGoast, load.PkgGotypes, load.PkgGuess, load.PkgSimple, load.ModPath + "/decorator/resolver/gopackages", load.ModPath + "/decorator/resolver/gobuild"} {
+		n += e.cacheAfterSuccess(path)
+	}
+	e.Run.Floor("R-CACHE", "stores to resolver state", n, 1)
+}
+
+func (e *Env) cacheAfterSuccess(pkgPath string) int {
+	pkg := e.Prog.Pkg(pkgPath)
 	info := pkg.TypesInfo
 	n := 0
 	for _, fd := range load.AllFuncDecls(pkg) {
@@ -409,6 +417,9 @@ func (e *Env) RCacheAfterSuccess() {
 						if id, ok := se.X.(*ast.Ident); ok && info.Uses[id] == recv {
 							stores = append(stores, as)
 						}
+					}
+					if id, ok := ix.X.(*ast.Ident); ok && info.Uses[id] == recv {
+						stores = append(stores, as) // map-typed receiver
 					}
 				}
 			}
@@ -442,7 +453,7 @@ func (e *Env) RCacheAfterSuccess() {
 						continue
 					}
 					last := rs.Results[len(rs.Results)-1]
-					if info.Types[last].IsNil() || !types.Identical(info.TypeOf(last), types.Universe.Lookup("error").Type()) {
+					if info.Types[last].IsNil() || !returnsErrorResult(info, fd) {
 						continue
 					}
 					if sb != nil && (ancestors(g, b)[sb] || (b == sb && rs.Pos() > st.Pos())) {
@@ -454,7 +465,7 @@ func (e *Env) RCacheAfterSuccess() {
 				"an error return at "+e.Prog.Pos(bad)+" is reachable after the store: a resolution that fails half-way leaves a partial entry in the shared resolver, and a later retry (fresh decorator, same resolver, same file) silently uses it")
 		}
 	}
-	e.Run.Floor("R-CACHE", "cache stores in the shared resolver", n, 1)
+	return n
 }
 
 // RParenSync: in updateImports, every import declaration whose spec list is changed also has its
@@ -576,4 +587,12 @@ func (e *Env) RHangGuard() {
 		return true
 	})
 	e.Run.Floor("R-HANG", "spoofed end indents in link", n, 1)
+}
+
+func returnsErrorResult(info *types.Info, fd *ast.FuncDecl) bool {
+	if fd.Type.Results == nil || len(fd.Type.Results.List) == 0 {
+		return false
+	}
+	last := fd.Type.Results.List[len(fd.Type.Results.List)-1]
+	return types.Identical(info.TypeOf(last.Type), types.Universe.Lookup("error").Type())
 }
